@@ -50,9 +50,13 @@ Applicable(qq) ==
     \cup (IF HasRel(qq) THEN FrozenNames \cup {"KF_C02_NativePlannerDropsPatternDetails"} ELSE {})
     \cup (IF HasWhere(qq) THEN {"KF_C02_ParallelFilterSwallowsErrors"} ELSE {})
 \* ideal first; otherwise the MINIMAL sets of open deviations that explain the outcome
+\* (the guard is compared with TRUE so that TLC evaluates it as a value: evaluated as an action, every witness of the
+\* existential quantifiers inside P would become a separate successor)
 Judge(qq, P(_)) ==
     IF P({}) THEN KFs({})
-    ELSE \E D \in SUBSET (OpenKF \cap Applicable(qq)) : D # {} /\ P(D) /\ (\A x \in D : ~P(D \ {x})) /\ KFs(D)
+    ELSE \E D \in SUBSET (OpenKF \cap Applicable(qq)) :
+            /\ (D # {} /\ P(D) /\ (\A x \in D : ~P(D \ {x}))) = TRUE
+            /\ KFs(D)
 
 \* ------------------------------------------------------------------ graph steps
 StepOK == Ev.res = <<"ok">>
@@ -93,12 +97,16 @@ T_DeleteNode ==
           /\ crel' = Kill(crel, inc \cup stale)
           /\ fzKF' = IF \E x \in fz : x.r \in inc THEN fzKF \cup {"KF_DeleteNode_FrozenKept"} ELSE fzKF
     /\ UNCHANGED <<hasIdx, rid, fz>> /\ Same
+\* In the +cmp configurations an earlier delete_node may already have deleted this relationship through a stale frozen
+\* entry (KF_DeleteNode_FrozenKept): there the call fails, so both results are recorded.
+RelRes(r) == IF crel[r].live THEN <<"ok">> ELSE <<"err", "ok">>
+RelBook(r) == IF crel[r].live THEN Same ELSE KFs(fzKF)
 T_DeleteRel ==
-    /\ IsEv("DeleteRel") /\ StepOK /\ Ev.r \in LiveR(G)
+    /\ IsEv("DeleteRel") /\ Ev.r \in LiveR(G) /\ Ev.res = RelRes(Ev.r)
     /\ G' = DelRel(G, Ev.r)
     /\ crel' = Kill(crel, {Ev.r})
     /\ fzKF' = IF \E x \in fz : x.r = Ev.r THEN fzKF \cup {"KF_DeleteEdge_FrozenKept"} ELSE fzKF
-    /\ UNCHANGED <<hasIdx, rid, fz>> /\ Same
+    /\ UNCHANGED <<hasIdx, rid, fz>> /\ RelBook(Ev.r)
 T_SetNodeProp ==
     /\ IsEv("SetNodeProp") /\ StepOK /\ Ev.n \in LiveN(G)
     /\ LET g1 == [G EXCEPT !.nodes[Ev.n].props[Ev.key] = Ev.v]
@@ -113,10 +121,10 @@ T_RemoveNodeProp ==
     /\ G' = [G EXCEPT !.nodes[Ev.n].props[Ev.key] = VNull]
     /\ UNCHANGED <<hasIdx, rid, crel, fz, fzKF>> /\ Same
 T_SetRelProp ==
-    /\ IsEv("SetRelProp") /\ StepOK /\ Ev.r \in LiveR(G)
+    /\ IsEv("SetRelProp") /\ Ev.r \in LiveR(G) /\ Ev.res = RelRes(Ev.r)
     /\ G' = [G EXCEPT !.rels[Ev.r].props.p = Ev.v]
-    /\ crel' = [crel EXCEPT ![Ev.r].props.p = Ev.v]
-    /\ UNCHANGED <<hasIdx, rid, fz, fzKF>> /\ Same
+    /\ crel' = IF crel[Ev.r].live THEN [crel EXCEPT ![Ev.r].props.p = Ev.v] ELSE crel
+    /\ UNCHANGED <<hasIdx, rid, fz, fzKF>> /\ RelBook(Ev.r)
 T_AddLabel ==
     /\ IsEv("AddLabel") /\ StepOK /\ Ev.n \in LiveN(G)
     /\ LET g1 == [G EXCEPT !.nodes[Ev.n].labels = @ \cup {Ev.label}] IN
